@@ -8,8 +8,12 @@
 //!    (on the scaled state and on the prices exposed by `algorithm()`);
 //!  * across one L2 block update the execution price moves by at most
 //!    `exec_gas_price_change_percent` % of its previous value and the DA price by at
-//!    most `max_da_gas_price_change_percent` % (one unit of integer rounding allowed;
-//!    a move that lands exactly on the bound it was clamped to is exempt); the same
+//!    most `max_da_gas_price_change_percent` %. The bound is exact in the scaled domain the
+//!    updater works in: |new - old| <= floor(old * pct / 100) (the documented "can only
+//!    change by a fixed amount each block" / "maximum percentage ... in a single block"
+//!    with integer division; no rounding allowance - a move of 1 when old*pct/100 < 1
+//!    exceeds the percentage). Only a value that was outside its bounds and lands exactly
+//!    on the bound it was clamped to is exempt; the same
 //!    per-call DA rate is required from a DA record update;
 //!  * an L2 update for a height other than the next one returns an error and
 //!    leaves the updater and the unrecorded-blocks map unchanged.
@@ -86,7 +90,53 @@ impl Step {
     }
 }
 
+/// configurations in which price * pct / 100 is below one unit most of the time while the
+/// PID controller keeps receiving non-zero profit / loss signals
+fn gen_tiny_updater(rng: &mut rand::rngs::StdRng) -> AlgorithmUpdaterV1 {
+    let min_exec = *pick(rng, &[0u64, 1, 3]);
+    let min_da = *pick(rng, &[0u64, 1, 3]);
+    let max_da = min_da + *pick(rng, &[2u64, 10, 60, 500, 1_000_000]);
+    let small_pct: [u16; 8] = [0, 1, 1, 2, 5, 10, 10, 50];
+    let comp: [i64; 8] = [1, -1, 2, -2, 10, -10, 1000, 0];
+    let (mut p, d) = (*pick(rng, &comp), *pick(rng, &comp));
+    if p == 0 && d == 0 {
+        p = 1;
+    }
+    let activity = L2ActivityTracker::new(
+        rng.gen_range(0..4),
+        rng.gen_range(0..4),
+        rng.gen_range(0..4),
+        rng.gen_range(0..12),
+        ClampedPercentage::new(*pick(rng, &[0u8, 20, 50, 100])),
+    );
+    AlgorithmUpdaterV1 {
+        new_scaled_exec_price: min_exec + rng.gen_range(0..120),
+        min_exec_gas_price: min_exec,
+        exec_gas_price_change_percent: *pick(rng, &small_pct),
+        l2_block_height: *pick(rng, &[0u32, 1, 1000]),
+        l2_block_fullness_threshold_percent: ClampedPercentage::new(*pick(rng, &[1u8, 50, 99])),
+        new_scaled_da_gas_price: (min_da + rng.gen_range(0..120)).min(max_da),
+        gas_price_factor: NonZeroU64::new(1).unwrap(),
+        min_da_gas_price: min_da,
+        max_da_gas_price: max_da,
+        max_da_gas_price_change_percent: *pick(rng, &small_pct),
+        total_da_rewards: *pick(rng, &[0u128, 1_000, 1_000_000]),
+        latest_known_total_da_cost: *pick(rng, &[0u128, 1_000, 1_000_000]),
+        projected_total_da_cost: *pick(rng, &[0u128, 1_000, 1_000_000]),
+        da_p_component: p,
+        da_d_component: d,
+        last_profit: *pick(rng, &[0i128, 5, -5, 1_000_000, -1_000_000]),
+        second_to_last_profit: *pick(rng, &[0i128, 5, -5, 1_000_000, -1_000_000]),
+        latest_da_cost_per_byte: *pick(rng, &[0u128, 1, 100]),
+        l2_activity: activity,
+        unrecorded_blocks_bytes: 0,
+    }
+}
+
 fn gen_updater(rng: &mut rand::rngs::StdRng) -> AlgorithmUpdaterV1 {
+    if chance(rng, 35) {
+        return gen_tiny_updater(rng);
+    }
     let factor = *pick(rng, &[1u64, 1, 2, 100, 1_000_000]);
     let min_exec = *pick(rng, &[0u64, 1, 10, 1000]);
     let min_da = *pick(rng, &[0u64, 1, 10, 1000]);
@@ -267,13 +317,19 @@ fn bounds(u: &AlgorithmUpdaterV1) -> Option<Bounds> {
     })
 }
 
-/// |new - old| <= old*pct/100 + 1, unless the value sits on a bound it was clamped to
+/// largest move the configured percentage permits from `old` (exact, scaled domain)
+fn allowed_move(old: u64, pct: u16) -> u128 {
+    (old as u128) * (pct as u128) / 100
+}
+
+/// |new - old| <= floor(old*pct/100), unless `old` was outside its bounds and `new`
+/// sits exactly on the bound it was clamped to
 fn rate_ok(old: u64, new: u64, pct: u16, clamp_up_to: Option<u64>, clamp_down_to: Option<u64>) -> bool {
-    let allowed = (old as u128) * (pct as u128) / 100 + 1;
+    let allowed = allowed_move(old, pct);
     if new > old {
-        (new - old) as u128 <= allowed || clamp_up_to == Some(new)
+        (new - old) as u128 <= allowed || clamp_up_to.is_some_and(|lo| new == lo && old < lo)
     } else {
-        (old - new) as u128 <= allowed || clamp_down_to == Some(new)
+        (old - new) as u128 <= allowed || clamp_down_to.is_some_and(|hi| new == hi && old > hi)
     }
 }
 
@@ -400,6 +456,16 @@ fn run_sequence(
             // self-test 3: corrupt the observed DA price above its maximum
             new_da = b.hi_da.saturating_add(1);
         }
+        if ctx.st == Some(4)
+            && (l2_ok || da_ok)
+            && old_da > b.lo_da
+            && old_da < b.hi_da
+            && allowed_move(old_da, u.max_da_gas_price_change_percent) == 0
+        {
+            // self-test 4: the observed DA price creeps by one unit although the configured
+            // percentage of the previous price rounds down to zero (a `max_change().max(1)` style bug)
+            new_da = old_da + 1;
+        }
         if l2_ok {
             exec_established = true;
         }
@@ -430,6 +496,14 @@ fn run_sequence(
             if new_exec == b.lo_exec && new_exec != old_exec {
                 local.count("events.exec_clamped_to_min");
             }
+            let allowed = allowed_move(old_exec, u.exec_gas_price_change_percent);
+            if allowed == 0 && old_exec > 0 {
+                // the percentage of a positive price rounds down to nothing: no move permitted
+                local.count("rate.exec_allowed_zero_price_positive");
+            }
+            if allowed > 0 && (new_exec as i128 - old_exec as i128).unsigned_abs() == allowed {
+                local.count("rate.exec_moved_exactly_allowed");
+            }
             if new_exec > old_exec {
                 local.count("events.exec_up");
             } else if new_exec < old_exec {
@@ -444,6 +518,29 @@ fn run_sequence(
                     format!("da_rate_exceeded dir={dir} via={via}"),
                     format!("DA price {old_da} -> {new_da} with {}% allowed", u.max_da_gas_price_change_percent),
                 ));
+            }
+            let allowed = allowed_move(old_da, u.max_da_gas_price_change_percent);
+            if allowed == 0 && old_da > 0 {
+                local.count("rate.da_allowed_zero_price_positive");
+                // evidence that the controller wanted to move although nothing is permitted:
+                // the (post-update) profit is at least one P unit, or the profit slope one D unit
+                let p_signal = u.da_p_component != 0
+                    && u.last_profit.unsigned_abs() >= (u.da_p_component as i128).unsigned_abs();
+                let slope = u.last_profit.saturating_sub(u.second_to_last_profit);
+                let d_signal =
+                    u.da_d_component != 0 && slope.unsigned_abs() >= (u.da_d_component as i128).unsigned_abs();
+                if p_signal || d_signal {
+                    local.count("rate.da_allowed_zero_with_profit_signal");
+                    if old_da > b.lo_da && old_da < b.hi_da {
+                        local.count("rate.da_allowed_zero_with_profit_signal_strictly_inside_bounds");
+                    }
+                }
+                if matches!(u.l2_activity.safety_mode(), DAGasPriceSafetyMode::AlwaysDecrease) {
+                    local.count("rate.da_allowed_zero_in_always_decrease_mode");
+                }
+            }
+            if allowed > 0 && (new_da as i128 - old_da as i128).unsigned_abs() == allowed {
+                local.count("rate.da_moved_exactly_allowed");
             }
             if new_da != old_da {
                 if new_da == b.lo_da {
@@ -518,7 +615,9 @@ fn run_sequence(
 pub fn run(args: &Args, report: &Report) {
     let st = selftest(args);
     let rule = "seeded random configurations (percentages 0..=65535 incl. 0, 100, >100; factor 1..1e6; min=max; PID components \
-                incl. 0 and i64 extremes; small activity ranges; initial prices inside and outside the bounds) each driven \
+                incl. 0 and i64 extremes; small activity ranges; initial prices inside and outside the bounds; 35% 'tiny' \
+                configurations with factor 1, prices 0..120, percentages 0/1/2/5/10/50 and small non-zero P/D so that \
+                floor(price*pct/100)=0 under a non-zero profit signal) each driven \
                 by a long sequence of consecutive L2 updates, wrong-height L2 updates and DA record batches (empty, recorded \
                 and unrecorded heights, zero bytes, costs up to u128::MAX). distinct_nontrivial = distinct configurations whose \
                 sequence saw both an exec and a DA price move and at least one rejection";
@@ -623,6 +722,13 @@ pub fn run(args: &Args, report: &Report) {
         report.require("events.activity_capped", 10_000);
         report.require("events.activity_always_decrease", 10_000);
         report.require("configs.nontrivial", 500);
+        report.require("rate.da_allowed_zero_price_positive", 100_000);
+        report.require("rate.da_allowed_zero_with_profit_signal", 50_000);
+        report.require("rate.da_allowed_zero_with_profit_signal_strictly_inside_bounds", 20_000);
+        report.require("rate.da_allowed_zero_in_always_decrease_mode", 10_000);
+        report.require("rate.exec_allowed_zero_price_positive", 100_000);
+        report.require("rate.da_moved_exactly_allowed", 10_000);
+        report.require("rate.exec_moved_exactly_allowed", 100_000);
     }
     report.finish(args, "exploration", rule, false, &assumptions);
 }
